@@ -15,6 +15,7 @@ from ..core import e1
 PROPERTY = "C13"
 LEVEL = "model_checking"
 RULE = (
+    "(as built, rounds 4-5: before every operation each name is looked up through every access path; removal also through pop and LASFile.delete_curve; names no item wears any more must raise KeyError) "
     "BFS over histories of append(n), insert(pos, n), del[0], del[-1], del[key], set_item(key, item), rename + "
     "assign_duplicate_suffixes() with names in {A, a, B, '', 'A:1', 'A:2', UNKNOWN}, from 7 roots (empty section with "
     "case-insensitive comparison off/on, LASFile.curves, sections read from a file with mnemonic_case preserve/upper/"
